@@ -5,6 +5,7 @@ import Driver.MetricsCmd
 import Driver.FileCmd
 import Driver.JobCmd
 import Driver.C16Cmd
+import Driver.C04Cmd
 
 def main (args : List String) : IO UInt32 :=
   match args with
@@ -17,4 +18,5 @@ def main (args : List String) : IO UInt32 :=
   | ["corr", "file"] => Driver.lineLoop Driver.fileLine
   | ["corr", "job"] => Driver.lineLoop Driver.jobLine
   | ["corr", "c16"] => Driver.c16Cmd
+  | ["corr", "c04"] => Driver.c04Cmd
   | _ => do IO.eprintln "usage: driver <trace|corr> …"; pure 2
